@@ -253,6 +253,8 @@ static std::vector<std::string> hist_gen(const GenArgs &ga) {
     // a sixth of the plans watch a program whose only float operation is a comparison or conversion (its results
     // must not depend on the floating-point control state other kernels leave behind)
     if (s == 0 && !foreign && tgt != "mmx" && sw.chance(1, 6)) { spec = sw.chance(1, 2) ? "fixed:cmpltf" : "fixed:convfl"; float_watch = true; }   // that program is for mmx register exhaustion only (see the compile op)
+    // now and then: a 64-bit opcode fed from a 4-byte parameter (its upper half is nobody's business)
+    if (!foreign && tgt != "mmx" && !float_watch && sw.chance(1, 10)) spec = "fixed:addqp4";
     unsigned long fmask = 0xffffffffUL;
     if ((tgt == "sse" || tgt == "mmx") && sw.chance(1, 3)) {
       // drop a random subset of optional CPU feature bits (bits 1.. of the flag word), keep base + 64bit/frame bits
@@ -1569,6 +1571,28 @@ static void hist_run(const std::vector<std::string> &plan, Child &c) {
           if (!refused && (r1 != r2 || hcode(p) != hcode(fresh) || hasm(p) != hasm(fresh)))
             c.violation("determinism", "edited-program-compiles-differently",
                         strf("subject %zu: after appending %s and recompiling, result/code/listing (%#x) differ from a freshly built program with the same instructions (%#x)", si, opn, r1, r2));
+          orc_program_free(fresh);
+        }
+        // a compile that fails leaves the program as a failing compile of a freshly built program leaves it,
+        // whatever an earlier successful compile attached to it (no reset in between)
+        if (st.O("det") && (kvu(w, "ds") & 4) && t && !strcmp(orc_program_get_error(p), "") && p->orccode) {
+          ProgMeta fm;
+          OrcProgram *fresh = build_program(s.spec, strf("subj%zu", si), &fm);
+          for (int k = fm.n_insns; k < p->n_insns; k++)   // (the edit made above, if any)
+            orc_program_append_2(fresh, p->insns[k].opcode->name, 0, ORC_VAR_D1, ORC_VAR_D1, p->insns[k].src_args[1], 0);
+          fs::begin_op({});
+          int r1 = orc_program_compile_full(p, t, 0);        // no feature flags at all: the x86 backends have no rules then
+          int r2 = orc_program_compile_full(fresh, t, 0);
+          fs::OpStats es = fs::end_op();
+          bool refused = es.policy_failures > 0 || es.fired > 0;
+          auto hcode = [](OrcProgram *q) { return q->orccode && q->orccode->chunk ? fnv(q->orccode->code, q->orccode->code_size) : 0ULL; };
+          auto hasm = [](OrcProgram *q) { const char *a = orc_program_get_asm_code(q); return a ? fnv(a, strlen(a)) : 0ULL; };
+          c.count("subject.recompiles_without_flags");
+          if (!ORC_COMPILE_RESULT_IS_SUCCESSFUL(r1)) c.count("subject.failing_recompiles_after_success");
+          if (!refused && (r1 != r2 || hcode(p) != hcode(fresh) || hasm(p) != hasm(fresh)))
+            c.violation("determinism", "failed-recompile-keeps-earlier-state",
+                        strf("subject %zu: compiled successfully, then compiled again with no feature flags (%#x): result/code/listing differ from what a freshly built program gets for that compile (%#x)%s", si, r1, r2,
+                             hasm(p) != hasm(fresh) ? "; the listing differs" : ""));
           orc_program_free(fresh);
         }
         orc_program_free(p);
